@@ -228,7 +228,10 @@ class RegexUse:
         return getattr(re, self.how)(self.pattern, text, self.flags)
 
     def describe(self):
-        return "%s .%s()" % ("re" if self.via in ("literal",) else self.via, self.how)
+        f = self.call.func
+        if re_member(self.fn.module, f) is not None:
+            return "re.%s()" % self.how
+        return "%s.%s()" % (ast.unparse(f.value), self.how) + ("" if self.via == "re.compile" else " (%s)" % self.via)
 
 
 def regex_uses(idx, fn, env=None):
@@ -288,9 +291,13 @@ def match_succeeded(fnorm, n, lab, call):
     """The edge (n, lab) is taken only when the regex application `call` produced a match object
     (`if m:`, `if not m: raise`, `if m is None: raise`, also through a local holding the result)."""
     f = fnorm.edge_fact(n, lab)
-    if not f or not (f[0] == "truth" or (f[0] == "is not" and "None" in f[1:])):
+    if not f:
         return False
-    return any(c is call for c in ast.walk(fnorm.resolve(n, n.ast)))
+    if f[0] == "truth":
+        return fnorm.resolve(n, n.ast) is call
+    if f[0] == "is not" and "None" in f[1:] and isinstance(n.ast, ast.Compare) and len(n.ast.comparators) == 1:
+        return any(fnorm.resolve(n, x) is call for x in (n.ast.left, n.ast.comparators[0]))
+    return False
 
 
 LEAD_JUNK = ("x", "-", "1.", "1,", "= ", "x\n")
@@ -299,32 +306,42 @@ TRAIL_JUNK = ("x", " x", ".5", "\nx", " 7")
 
 def whole_value(r, fn, u, what, samples, reading):
     """The grammar must cover the value from its first to its last character.  Decided from (anchors x method x
-    MULTILINE); malformed probe strings built from well-formed samples give the concrete misreading."""
+    MULTILINE); malformed probe strings built from well-formed samples give the concrete misreading: a probe that is
+    accepted with a match that begins after its first / ends before its last character shows the ignored text."""
     good = [s for s in samples if u.apply(s)]
     if not good:
         raise AnalysisError("%s: none of the well-formed samples %r is accepted by %r" % (fn.qual, samples, u.pattern))
-
-    def probe(junks, lead):
+    wit = {"start": None, "end": None, "grammar": None}
+    for lead, junks in ((True, LEAD_JUNK), (False, TRAIL_JUNK)):
         for s in good:
             for j in junks:
                 t = j + s if lead else s + j
                 mm = u.apply(t)
-                if mm:
-                    return t, mm
-        return None
-    for side, ok, junks in (("start", start_anchored(u), LEAD_JUNK), ("end", end_anchored(u), TRAIL_JUNK)):
-        w = probe(junks, side == "start")
+                if not mm:
+                    continue
+                if lead and mm.start() > 0:
+                    wit["start"] = wit["start"] or (t, mm)
+                elif not lead and mm.end() < len(t):
+                    wit["end"] = wit["end"] or (t, mm)
+                elif mm.span() == (0, len(t)):
+                    wit["grammar"] = wit["grammar"] or (t, mm)
+    ml = " under re.MULTILINE" if u.flags & re.MULTILINE else ""
+    for side, ok in (("start", start_anchored(u)), ("end", end_anchored(u))):
+        w = wit[side]
         if ok and w is None:
             continue
         if w is None:
             raise AnalysisError("%s: cannot decide whether %r applied with %s is anchored at the %s" % (
                 fn.qual, u.pattern, u.describe(), side))
-        ml = " under re.MULTILINE" if u.flags & re.MULTILINE else ""
         why = ("it is applied with %s%s and has no %s anchor" % (u.describe(), ml, side)) if not ok else \
             "its %s admits other text" % side
         r.violation(fn, fn.loc(u.call), "%s pattern %r does not cover the whole value: %s, so text %s the value is ignored "
                     "instead of being rejected: %r is accepted and read as %s" % (
                         what, u.pattern, why, "before" if side == "start" else "after", w[0], reading(w[1])))
+    if wit["grammar"]:
+        w = wit["grammar"]
+        r.violation(fn, fn.loc(u.call), "%s pattern %r accepts the malformed value %r and reads it as %s" % (
+            what, u.pattern, w[0], reading(w[1])))
 
 
 def strip_top(rast):
@@ -821,9 +838,20 @@ def run(ctx: Context):
             return not find_path_avoiding(fcfg, lambda n: n in rets, gate_edge=lambda n, lab: match_succeeded(fnorm, n, lab, u.call))
 
         guard = None
+        weak = []
         for u in regex_uses(idx, fn):
-            if norm_plain(u.subject) == p and start_anchored(u) and end_anchored(u) and fixed_shape(u.rast) and gates(u):
+            lacks = [why for ok, why in (
+                (norm_plain(u.subject) == p, "is not applied to the argument"),
+                (start_anchored(u), "is not anchored at the start"),
+                (end_anchored(u), "is not anchored at the end"),
+                (fixed_shape(u.rast), "admits more than a fixed digits-and-punctuation shape"),
+                (gates(u), "does not gate every return")) if not ok]
+            if not lacks:
                 guard = u
+            else:
+                weak.append("%r applied with %s %s" % (u.pattern, u.describe(), " and ".join(lacks)))
+        noguard = ("parse_date does not check the shape of its argument first" if not weak else
+                   "the check in parse_date does not pin the value (%s)" % "; ".join(weak))
         if guard is not None:
             r.sample({"guard": guard.pattern, "applied": guard.describe()})
             for d in date["dates"]:
@@ -835,13 +863,11 @@ def run(ctx: Context):
                                   "value %r" % (guard.pattern, t))
         else:
             if not start_anchored(iuse):
-                r.violation(iso, iso.loc(mc), "the date regex %r is applied with %s and has no start anchor, and parse_date does "
-                            "not check the shape of its argument first: text before the date is ignored instead of being "
-                            "rejected" % (date["pattern"], iuse.describe()))
-            r.require(end_anchored(iuse), fn, iso.loc(mc), "the date regex %r is applied with %s and has no end anchor, and "
-                      "parse_date does not check the shape of its argument first: parse_date('2009-03-18T01:02:03') matches "
-                      "its own prefix, the appended 'T00:00:00' is ignored and the value is read as 01:02:03 instead of "
-                      "being rejected" % (date["pattern"], iuse.describe()))
+                r.violation(iso, iso.loc(mc), "the date regex %r is applied with %s and has no start anchor, and %s: text "
+                            "before the date is ignored instead of being rejected" % (date["pattern"], iuse.describe(), noguard))
+            r.require(end_anchored(iuse), fn, iso.loc(mc), "the date regex %r is applied with %s and has no end anchor, and %s: "
+                      "parse_date('2009-03-18T01:02:03') can match its own prefix, the appended 'T00:00:00' is ignored and "
+                      "the value is read as 01:02:03 instead of being rejected" % (date["pattern"], iuse.describe(), noguard))
 
     # =================================================================== 7
     with ctx.rule("C48.7", "R11", "every output template of abbreviate_space lies in the grammar of parse_abbreviated_size",
